@@ -253,7 +253,7 @@ CHECKS.update({
             'hints x 6 entry points judged on the REAL outcome.',
             'PARTIAL: "whatever object is supplied as a hint" ranges over all of Python; the proofs cover the exception algebra, extracted '
             'tables, memoiser, classification logic and wrapper exception paths, the unbounded claim is supported by the differential '
-            'generator only. 5 repairs (fixes/C11_*.patch), 30 listed findings. Trusted: Lean kernel + propext/Classical.choice/Quot.sound; '
+            'generator only. 7 repairs in /repo (5 in fixes/C11_*.patch + alias-of-Any unions, NewType over final classes), 23 listed findings. Trusted: Lean kernel + propext/Classical.choice/Quot.sound; '
             'the AST translator (cross-checked at run time); the harness; exceptions raised by the hint object\'s own dunder methods count '
             'as user code; time-outs give no verdict; third-party hints and Python other than 3.12 not driven.', 'DESIGN §4 C11'),
 })
